@@ -38,7 +38,7 @@ CHECKS = {
     },
     "C15": {
         "modules": ["PGV.Props.C15"], "audits": ["PGV/Audit/C15.lean"],
-        "streams": ["explain", "flat", "walk"], "thorough_seeds": 4,
+        "streams": ["explain", "flat", "walk", "explain-exh"], "thorough_seeds": 4,
         "assumptions": WALK_ASSUME + ["C15_extract is stated for clean clause lists: no clause contains ErrEndFlag and the first label in a clause is its own (decidable; evaluated per case, violations of it are reported as out of scope)"],
         "explanation": "C15_extract: for EVERY list of clean clauses (any mix/order/length) GetOnlyExplainErr(render cs) = the explanations of the labelled clauses joined by ErrEndFlag; C15_message_verbatim: the clause of a violated rule with a custom message is path + input + label + message verbatim; stream explain feeds synthetic clause lists and real validation errors to GetOnlyExplainErr, walk/flat compare every clause text (30% custom messages, ASCII/CJK/one-rune)",
     },
